@@ -208,6 +208,9 @@ func extReflectSet(fr *frame, args []value) value {
 	if fr.i.ex != nil && fr.i.ex.StoreMon != nil {
 		fr.i.ex.StoreMon.onStore(fr, nil, addr)
 	}
+	if fr.i.ex != nil && fr.i.ex.Guard != nil {
+		fr.i.ex.Guard.onStore(fr, addr)
+	}
 	*addr = nv
 	return nil
 }
